@@ -3,5 +3,5 @@ EXTENDS View
 CONSTANTS MaxDims, Lens
 MCShapeSet == AllShapes(MaxDims, Lens)
 \* unequal lengths with 3 and 4 axes: every order of naming up to three removed axes
-MCNameShapes == {<<2, 3, 2, 3>>, <<3, 2, 2, 2>>, <<2, 3, 4>>}
+MCNameShapes == {<<2, 3, 2, 3>>, <<3, 2, 2, 2>>, <<2, 3, 4>>, <<1>>, <<1, 1>>, <<1, 3>>, <<2, 1>>}
 =============================================================================
